@@ -88,9 +88,11 @@ int main(void) {
 		KSI_PolicyVerificationResult *result = NULL;
 		int rc;
 		size_t k;
+		int viaClone = 0; KSI_Policy *cl = NULL;
 		line[strcspn(line, "\n")] = 0;
 		if (!*line) continue;
 		p = line; narena = 0; ninv = 0;
+		if (!strncmp(p, "CLONE ", 6)) { viaClone = 1; p += 6; }     /* verify through KSI_Policy_clone of the (fallback-carrying) head policy */
 		for (;;) {
 			KSI_Rule *rules = parse_list();
 			if (KSI_Policy_create(ctx, rules, "verif", &pol[npol]) != KSI_OK) { fprintf(stderr, "policy create\n"); return 2; }
@@ -101,7 +103,8 @@ int main(void) {
 		}
 		for (i = 0; i + 1 < npol; i++) KSI_Policy_setFallback(ctx, pol[i], pol[i + 1]);
 		KSI_VerificationContext_init(&vc, ctx);
-		rc = KSI_SignatureVerifier_verify(pol[0], &vc, &result);
+		if (viaClone && KSI_Policy_clone(ctx, pol[0], &cl) != KSI_OK) { fprintf(stderr, "policy clone\n"); return 2; }
+		rc = KSI_SignatureVerifier_verify(viaClone ? cl : pol[0], &vc, &result);
 		printf("R rc=%d", rc == KSI_OK ? 0 : 1);
 		if (result != NULL) {
 			printf(" res=%d err=%d npol=%zu pol=", result->finalResult.resultCode, result->finalResult.errorCode,
@@ -120,6 +123,7 @@ int main(void) {
 		printf("\n");
 		KSI_PolicyVerificationResult_free(result);
 		KSI_VerificationContext_clean(&vc);
+		KSI_Policy_free(cl);
 		for (i = 0; i < npol; i++) KSI_Policy_free(pol[i]);
 		for (i = 0; i < narena; i++) free(arena[i]);
 	}
